@@ -17,8 +17,9 @@ C=$V/coq
 setup_tree() {
   rm -rf $S; mkdir -p $S/coq/Gen $S/coq/Proofs
   ln -s $C/Lib $S/coq/Lib; ln -s $C/Model $S/coq/Model
+  # limbgen outputs are never linked (limbgen would write through the link)
   for f in $C/Gen/*; do
-    case $(basename $f) in FfRoutines.*|FfgRoutines.*|FfGlue.*|FfgGlue.*) ;; *) ln -s $f $S/coq/Gen/ ;; esac
+    case $(basename $f) in FfRoutines.*|FfgRoutines.*|FfGlue.*|FfgGlue.*|FfMem.*|FfgMem.*) ;; *) ln -s $f $S/coq/Gen/ ;; esac
   done
   cp $C/Proofs/FfRoutinesEq.v $C/Proofs/FfgRoutinesEq.v $S/coq/Proofs/
 }
